@@ -108,7 +108,7 @@ theorem operators_are_values (h : Heap) (a b l : Ref) (z : Coef) (n : Nat) (zc :
 
 /-- sentences 3–5 (measurements, distributions, wavefunctions) -/
 theorem measurements_distributions_wavefunctions_are_values (h : Heap) (m d d2 w l p : Ref)
-    (counts : List (Bits × Nat)) (n : Nat) (samples : List Bits) (qs : List Nat) (nrm : Bool)
+    (counts : List (Bits × Nat)) (n : Nat) (samples : List Bits) (qs : List Int) (nrm : Bool)
     {r : Ref} {o : Obs} (ho : view? h r = some o) :
     ∀ c ∈ [Call.measNew l, .measFromCounts counts, .measCounts m, .measDistribution m,
            .measRepresenting d n samples, .report "expectation_values" [m, p], .report "parities" [m, p],
@@ -161,5 +161,26 @@ example : (((run [] histD).2.map (·.out)).drop 2).take 3 =
      .ok (.obj (.dist [([1, 0], 1/4), ([1, 1], 1/4), ([0, 1], 1/2)])), .err .value] := by decide +kernel
 example : ((run [] histD).2.map (·.out)).drop 7 =
     [.ok (.counts [([0, 1], 2), ([1, 1], 1)]), .ok (.obj (.meas [[1], [1], [0]]))] := by decide +kernel
+
+-- indices counted from the end (tuple indexing), an index below -len(key) (IndexError), and the store after them
+example : ((run (run [] histD).1 [.distSub 2 [-1, 0], .distSub 2 [-2], .distSub 2 [-3], .distSub 2 [-1, 1]]).2.map (·.out)) =
+    [.ok (.obj (.dist [([1, 0], 1/4), ([1, 1], 1/4), ([0, 1], 1/2)])),
+     .ok (.obj (.dist [([0], 1/4), ([1], 3/4)])), .err .index,
+     .ok (.obj (.dist [([1, 1], 1/2), ([0, 0], 1/2)]))] := by decide +kernel
+example : view? (run (run [] histD).1 [.distSub 2 [-1, 0], .distSub 2 [-3]]).1 2 =
+    some (.dist [([0, 1], 1/4), ([1, 1], 1/4), ([1, 0], 1/2)]) := by decide +kernel
+
+-- amplitudes normalised only up to the tolerance of np.isclose are accepted (and read without being rescaled);
+-- a dict whose values sum to 1 only up to math.isclose is stored as it is
+example : ((run [] [.litArr [⟨707107/1000000, 0⟩, ⟨0, 707107/1000000⟩], .wfNew 0, .wfProbs 1,
+                    .litArr [⟨1/2, 0⟩, ⟨1/2, 0⟩], .wfNew 2]).2.map (·.out)).drop 1 =
+    [.ok (.obj (.wf [⟨707107/1000000, 0⟩, ⟨0, 707107/1000000⟩])),
+     .ok (.probs [500000309449/1000000000000, 500000309449/1000000000000]),
+     .ok (.obj (.arr [⟨1/2, 0⟩, ⟨1/2, 0⟩])), .err .value] := by decide +kernel
+example : ((run [] [.litDict [([0], 1/3), ([1], 666666666667/1000000000000)], .distNew 0 true,
+                    .litDict [([0], 1/3), ([1], 1/3)], .distNew 3 true]).2.map (·.out)).drop 1 =
+    [.ok (.obj (.dist [([0], 1/3), ([1], 666666666667/1000000000000)])),
+     .ok (.obj (.ddict [([0], 1/3), ([1], 1/3)])),
+     .ok (.obj (.dist [([0], 1/2), ([1], 1/2)]))] := by decide +kernel
 
 end OQ.C20
